@@ -292,6 +292,14 @@ class FortranAST:
                             child.update_fqsn(parent_scope.FQSN)
                     include_ast.none_scope = parent_scope
                     inc.scope_objs = added_entities
+            elif inc.file is not None:
+                # The included file is no longer part of the workspace: forget it and
+                # the entities it had contributed
+                for obj in added_entities:
+                    if parent_scope is not None and obj in parent_scope.children:
+                        parent_scope.children.remove(obj)
+                inc.file = None
+                inc.scope_objs = []
 
     def resolve_links(self, obj_tree, link_version):
         # Type lookups are cached on first use, the type may since have been
